@@ -38,6 +38,14 @@ def _check_trace(world, ev, before, rec, after, model, out):
     # the conclusions of add_to_queue_spec on the real post-state
     if rec.get('status') == 'Queued':
         _check_queue_fragment(world, ev, before, rec, after, tc.effective_ops(rec, tc.is_master_queue), model, out)
+    # update_integration_branches: the merges recorded on the pull request's w/ branches against Gate.update_ops
+    effw = tc.effective_ops(rec, tc.is_integration)
+    if effw or rec.get('status') in tc.AFTER_UPDATE:
+        _check_update_fragment(world, ev, before, rec, after, effw, model, out)
+    # a direct merge while queues are on: the queue was skipped, so the model's is_needed must answer False and
+    # check_in_sync True on the clone as it was just before the first destination merge
+    if rec.get('status') == 'SuccessMessage' and world.cfg['use_queue'] and eff:
+        _check_skip_queue(world, ev, before, rec, after, eff, graph, model, out)
 
 
 def _expected_pairs(world, before, pr):
@@ -189,6 +197,169 @@ def _check_queue_fragment(world, ev, before, rec, after, effq, model, out):
         out['trace_ops'] += 1
 
 
+def _check_update_fragment(world, ev, before, rec, after, effw, model, out):
+    """update_integration_branches of one pull request: the merges recorded on its w/<version>/<source> branches
+    (temporary branches of robust_merge resolved, the w/<destination> branch of check_conflict left out) must be
+    Gate.update_ops for the (w_i, dst_i) pairs of the pull request, one strategy per step; a job that ends in
+    Conflict stopped inside one step: the steps before it are compared."""
+    from . import tracecheck as tc
+    if ev.get('e') not in ('job_pr', 'job_commit', 'drained'):
+        return
+
+    def bad(fn, inp, impl, mod):
+        out['mismatch'].append({'function': fn, 'input': dict(inp, event=ev), 'impl': impl, 'model': mod})
+
+    src = effw[0][0].split('/', 2)[2] if effw else None
+    pr = _pr_of_job(ev, before, src) if (src or ev.get('e') == 'job_pr') else None
+    if pr is None:
+        if effw:
+            bad('update_ops', {'ops': effw}, effw, 'no pull request explains these integration-branch merges')
+        return
+    if pr['state'] != 'OPEN' and not effw:
+        return
+    pairs = _expected_pairs(world, before, pr)
+    wds = [(w, t) for t, w in pairs[1:]]
+    if not effw and (not wds or pr['src'] not in before['refs']):
+        return
+    out['hist']['fragment:update_integration'] = out['hist'].get('fragment:update_integration', 0) + 1
+    names = {pr['src']: 0}
+    for w, d in wds:
+        names.setdefault(w, len(names))
+        names.setdefault(d, len(names))
+    per_dst = {}
+    for d, ss in effw:
+        names.setdefault(d, len(names))
+        per_dst.setdefault(d, []).append(ss)
+        for x in ss:
+            names.setdefault(x, len(names))
+    # the strategy of each step, from the shape of the real operations (strategy_ops s w dst prev)
+    sg, prev, complete = '', pr['src'], 0
+    for w, d in wds:
+        ops = per_dst.get(w, [])
+        if ops == [[d, prev]]:
+            sg += 'O'
+        elif ops == [[prev, d]]:
+            sg += 'R'
+        elif ops == [[d], [prev]]:
+            sg += 'C'
+        elif ops == [[prev], [d]]:
+            sg += 'K'
+        else:
+            break
+        complete += 1
+        prev = w
+    conflict = rec.get('status') == 'Conflict'
+    if conflict:
+        # the conflicting step may have left a partial trace on its own branch; nothing runs after it
+        done = [w for w, _ in wds[:complete]]
+        later = [w for w, _ in wds[complete + 1:]]
+        real_ops = [(d, ss) for d, ss in effw if d in done]
+        if any(d in later for d, _ in effw):
+            bad('update_ops', {'pr': pr['id'], 'pairs': wds}, effw, 'no merge after the conflicting step')
+        wds_cmp = wds[:complete]
+    else:
+        real_ops, wds_cmp = effw, wds
+        sg = sg + 'O' * (len(wds) - len(sg))
+    out['hist']['ui_strategy:' + (sg or '-')] = out['hist'].get('ui_strategy:' + (sg or '-'), 0) + 1
+    req = 'uiops %s %s %d' % (sg[:len(wds_cmp)] or '-',
+                              ','.join('%d:%d' % (names[w], names[d]) for w, d in wds_cmp) or '-', names[pr['src']])
+    got = model.batch([req])[0]
+    real = ';'.join('%d:%s' % (names[d], '+'.join(str(names[x]) for x in ss)) for d, ss in real_ops)
+    out['trace_ops'] += 1
+    if got != real:
+        inv = {v: k for k, v in names.items()}
+        try:
+            shown = [[inv[int(o.split(':')[0])], [inv[int(x)] for x in o.split(':')[1].split('+')]]
+                     for o in got.split(';') if o]
+        except (ValueError, KeyError, IndexError):
+            shown = got
+        bad('update_ops', {'pr': pr['id'], 'pairs': wds, 'strategies': sg, 'status': rec.get('status')},
+            effw, shown)
+
+
+def _check_skip_queue(world, ev, before, rec, after, eff, graph, model, out):
+    """A pull-request job that ends in SuccessMessage with queues on merged directly: queueing.is_needed answered
+    False.  Gate.is_needed and Gate.check_in_sync are evaluated on the real clone as it was just before the first
+    destination merge (commit graph of the job's clone): the hypotheses of C03_skip_queue_direct_merge."""
+    from . import tracecheck as tc
+    first = next((t for t in rec.get('trace', []) if t['op'] == 'merge' and tc.is_dest(t['dst'])
+                  and t.get('before')), None)
+    if first is None or all(len(s) == 1 and s[0].startswith('q/w/') for _, s in eff):
+        return
+    pr = _pr_of_job(ev, before, eff[0][1][0])
+    if pr is None:
+        return
+    local = first['before']
+    pairs = _expected_pairs(world, before, pr)
+    src, dst = pr['src'], pairs[0][0]
+    wds = [(w, t) for t, w in pairs]            # zip(wbranches, dst_branches): the first one is (source, dst)
+    names = {}
+    for w, d in wds:
+        names.setdefault(w, len(names))
+        names.setdefault(d, len(names))
+    refs = {n: local[n] for n in names if n in local}
+    if any(s not in graph for s in refs.values()):
+        # the job's clone is gone (a retried push re-clones): the same commits, read from the bare remote
+        graph = {h: v[0] for h, v in world.graph().items()}
+        if any(s not in graph for s in refs.values()):
+            out['hist']['skip_queue:graph_unavailable'] = out['hist'].get('skip_queue:graph_unavailable', 0) + 1
+            return
+    order = tc.topo(graph, refs.values())
+    st, idx = tc.enc_store(graph, order)
+    aiq = any(n.startswith('q/w/%d/' % pr['id']) for n in list(before['refs']) + list(local))
+    qn = any(n.startswith('q/w/') for n in before['refs'])
+    flags = '1%d%d%d' % (1 if world.cfg['skip_queue'] else 0, 1 if aiq else 0, 1 if qn else 0)
+    reqs = ['isneeded %s %s %s %d %d %s' % (st, tc.enc_refs(refs, names, idx), flags, names[src], names[dst],
+                                           ','.join('%d:%d' % (names[w], names[d]) for w, d in wds)),
+            'insync %s %s %d %s' % (st, tc.enc_refs(refs, names, idx), names[src],
+                                    ','.join(str(names[w]) for w, _ in wds))]
+    needed, insync = model.batch(reqs)
+    out['trace_ops'] += 2
+    out['hist']['skip_queue:direct_merge'] = out['hist'].get('skip_queue:direct_merge', 0) + 1
+    what = {'event': ev, 'pr': pr['id'], 'pairs': wds, 'flags(use_queue,skip,already_in_queue,queued)': flags,
+            'tips': {n: refs.get(n) for n in names}}
+    if needed != '0':
+        out['mismatch'].append({'function': 'is_needed (the queue was skipped: the model must answer False)',
+                                'input': what, 'impl': False, 'model': needed})
+    if insync != '1':
+        out['mismatch'].append({'function': 'C03_skip_queue_direct_merge hypothesis (check_in_sync at the merge)',
+                                'input': what, 'impl': 'direct merge', 'model': insync})
+
+
+def _check_new_tips_unbuilt(world, ev, before, rec, after, out, seen_tips):
+    """System clause of C06 (Gate: new_tips_are_unbuilt): a commit a job creates as the new tip of an integration
+    branch did not exist before the job, so the host's build table as it was before the job has no entry for it.
+    `Created` = not reachable from any branch of the remote before the job.  (The harness fixes commit dates, so
+    re-creating a deleted integration branch from the same parents yields the same sha: a tip already seen in an
+    earlier dump of this history is counted apart, not as a created commit.)"""
+    from . import tracecheck as tc
+    from .sysworld import _git
+    moved = [(n, s) for n, s in after['refs'].items() if tc.is_integration(n) and before['refs'].get(n) != s]
+    if not moved:
+        return
+    tips = sorted(set(before['refs'].values()))
+    rc, outp = _git(world.url, 'rev-list', *tips, check=False) if tips else (0, '')
+    old = set(outp.split()) if rc == 0 else None
+    if old is None:
+        return
+    built = {}
+    for k in before['builds']:
+        sha, _, key = k.partition('|')
+        built.setdefault(sha, []).append(key)
+    for n, s in moved:
+        if s in old:
+            out['hist']['c06:w_tip_moved_to_existing_commit'] = out['hist'].get('c06:w_tip_moved_to_existing_commit', 0) + 1
+            continue
+        if s in seen_tips:
+            out['hist']['c06:w_tip_recreated'] = out['hist'].get('c06:w_tip_recreated', 0) + 1
+            continue
+        out['hist']['c06:w_tip_created'] = out['hist'].get('c06:w_tip_created', 0) + 1
+        if s in built:
+            out['mismatch'].append({'function': 'C06_new_tips_are_unbuilt (a commit created by the job has no build entry)',
+                                    'input': {'event': ev, 'branch': n, 'sha': s, 'keys': built[s]},
+                                    'impl': 'entry in the build table before the job', 'model': 'no entry (NOTSTARTED)'})
+
+
 def _check_fragment(world, ev, before, rec, after, eff, model, out):
     from . import tracecheck as tc
     dests = [d for d, _ in eff]
@@ -287,6 +458,7 @@ def _worker(args):
     out = {'seed': seed, 'jobs': 0, 'violations': [], 'mismatch': [], 'hist': {}, 'nontrivial': [],
            'trace_ops': 0, 'history': None, 'error': None, 'wall': 0.0}
     events_so_far = []
+    seen_tips = set()
     t0 = time.time()
 
     def on_job(world, ev, before, rec, after):
@@ -306,6 +478,13 @@ def _worker(args):
             except Exception:
                 out['mismatch'].append({'function': 'monitor-crash:' + name, 'input': ev,
                                         'impl': traceback.format_exc()[-800:], 'model': None})
+        try:
+            _check_new_tips_unbuilt(world, ev, before, rec, after, out, seen_tips)
+        except Exception:
+            out['mismatch'].append({'function': 'new-tips-check-crash', 'input': ev,
+                                    'impl': traceback.format_exc()[-800:], 'model': None})
+        seen_tips.update(before['refs'].values())
+        seen_tips.update(after['refs'].values())
         if model is not None:
             try:
                 _check_trace(world, ev, before, rec, after, model, out)
